@@ -3,9 +3,9 @@
    mandatory parameters were retyped (known finding, witness below); what is proved: every
    refusal by a documented guard returns the state as it was; and on objects whose mandatory parameters are well typed
    (mt_b) ANY throw of frame(), parameter(), point(frames), point(name)/analog(name)-before-data leaves the object
-   as it was, because the updaters that run after the mutation do not throw (Proofs_Updaters.v).  Not proved:
-   analog(frames) (its guards are not yet characterised), lock/unlock are trivial (C10_unknown_group). *)
-From EZ Require Import Base Types Api Proofs_Param Proofs_Store Proofs_Guards Proofs_Refuse Spec_Typed Proofs_Updaters Float32 Run.
+   as it was, because the updaters that run after the mutation do not throw (Proofs_Updaters.v); the same for
+   analog(frames) on frames of uniform shape (Proofs_AnalogCol.v); lock/unlock are trivial (C10_unknown_group). *)
+From EZ Require Import Base Types Api Proofs_Param Proofs_Store Proofs_Guards Proofs_Refuse Spec_Typed Proofs_Updaters Proofs_AnalogCol Float32 Run.
 Local Open Scope N_scope.
 
 Definition C10_full_statement : Prop := forall f_key f_tosize f_div f_is_zero s o e s',
@@ -89,6 +89,18 @@ Theorem C10_point_column_any_throw_unchanged : forall f_key f_tosize f_div,
   api_point_col f_key f_tosize f_div news s = RThrow e s' -> s' = s.
 Proof. exact api_point_col_throw_unchanged. Qed.
 Print Assumptions C10_point_column_any_throw_unchanged.
+
+(* analog(frames): COMPLETE for supplied and stored frames of uniform shape on well-typed objects: the validation pass
+   accepts exactly what the mutation pass can carry out (chan_cols_total), and the updaters do not throw *)
+Theorem C10_analog_column_any_throw_unchanged : forall f_key f_tosize f_div,
+  (forall x e, f_key x <> Throw e) -> (forall x e, f_tosize x <> Throw e) ->
+  forall news s e s',
+  MT (groups s) ->
+  uniform_chancol (N.to_nat (h_byframe (hdr s))) (width0 news) (frames s) news ->
+  (forall k s1, chan_cols k 0 news s = ROk tt s1 -> small_frames (frames s1)) ->
+  api_analog_col f_key f_tosize f_div news s = RThrow e s' -> s' = s.
+Proof. exact api_analog_col_throw_unchanged. Qed.
+Print Assumptions C10_analog_column_any_throw_unchanged.
 
 (* point(name) / analog(name) before any frame: the declaration is the updater alone, which does not throw *)
 Theorem C10_declare_never_throws : forall f_key f_tosize f_div,
